@@ -127,4 +127,74 @@ theorem cleanPTS_ne_nil (p : Str) : cleanPreservingTrailingSlash p ≠ [] := by
   · simp [cleanPreservingTrailingSlash, h]
   · simp [cleanPreservingTrailingSlash, h, this]
 
+/-! ### `newIgnorePattern`, field by field -/
+
+/-- The intermediate strings of `newIgnorePattern` for a (negation-stripped) body. -/
+def cleaned (p0 : Str) : Str := cleanPreservingTrailingSlash p0
+def isAbsolute (p0 : Str) : Bool := (cleaned p0).head? = some '/'
+def unanchored (p0 : Str) : Str := if isAbsolute p0 then (cleaned p0).tail else cleaned p0
+def isDirOnly (p0 : Str) : Bool := (unanchored p0).getLast? = some '/'
+def finalPattern (p0 : Str) : Str := if isDirOnly p0 then (unanchored p0).dropLast else unanchored p0
+
+/-- `parseBody` as a closed formula: which error, or which four fields. -/
+theorem parseBody_eq (n : Bool) (p0 : Str) :
+    parseBody n p0 =
+      if p0 = [] then .error .negatedEmpty
+      else if cleaned p0 = ['/'] then .error .root
+      else if cleaned p0 = ['/', '/'] then .error .rootDirectory
+      else if Mutagen.Model.Doublestar.dsErr (finalPattern p0) ['a'] then .error .badPattern
+      else .ok { negated := n, directoryOnly := isDirOnly p0,
+                 matchLeaf := !isAbsolute p0 && !(finalPattern p0).contains '/', pattern := finalPattern p0 } := by
+  unfold parseBody
+  by_cases h0 : p0 = []
+  · simp [h0]
+  · simp only [h0, if_false]
+    have hne : cleaned p0 ≠ [] := cleanPTS_ne_nil p0
+    unfold finalPattern isDirOnly unanchored isAbsolute
+    unfold cleaned at *
+    by_cases h1 : cleanPreservingTrailingSlash p0 = ['/']
+    · simp [h1]
+    · by_cases h2 : cleanPreservingTrailingSlash p0 = ['/', '/']
+      · simp [h2]
+      · simp only [h1, h2, if_false]
+        cases hc : cleanPreservingTrailingSlash p0 with
+        | nil => exact absurd hc hne
+        | cons c rest =>
+          simp only [List.head?_cons, List.tail_cons, Option.some.injEq]
+          by_cases habs : c = '/'
+          · subst habs
+            have hrest : rest ≠ [] := by
+              intro hr; rw [hr] at hc; exact h1 hc
+            simp only [if_true, decide_true]
+            cases hl : rest.getLast? with
+            | none => simp [List.getLast?_eq_none_iff] at hl; exact absurd hl hrest
+            | some l => simp
+          · simp only [habs, if_false, decide_false]
+            cases hl : (c :: rest).getLast? with
+            | none => simp at hl
+            | some l => simp [habs, hl]
+
+/-- `newIgnorePattern` never indexes out of range. -/
+theorem parseBody_no_panic (n : Bool) (p0 : Str) : parseBody n p0 ≠ .error .panic := by
+  rw [parseBody_eq]
+  repeat (first | split | simp)
+
+theorem parse_no_panic (p : Str) : parse p ≠ .error .panic := by
+  unfold parse
+  split
+  · simp
+  · exact parseBody_no_panic _ _
+  · exact parseBody_no_panic _ _
+
+theorem parseBody_ok_fields (n : Bool) (p0 : Str) (q : Pattern) (h : parseBody n p0 = .ok q) :
+    q.negated = n ∧ q.directoryOnly = isDirOnly p0 ∧
+    q.matchLeaf = (!isAbsolute p0 && !(finalPattern p0).contains '/') ∧ q.pattern = finalPattern p0 := by
+  rw [parseBody_eq] at h
+  split at h; · cases h
+  split at h; · cases h
+  split at h; · cases h
+  split at h; · cases h
+  cases h
+  exact ⟨rfl, rfl, rfl, rfl⟩
+
 end Mutagen.Proofs.IgnoreMutagen
